@@ -27,8 +27,13 @@ class C(A):          # subclass with an extra field
   y: Any
 
 
-CLASSES = {1: A, 2: B, 3: C}
-assert all(c.use_symbolic_comparison for c in CLASSES.values())
+class D(pg.Object):  # does not opt into symbolic comparison: == / != / hash() are by identity, pg.eq is not
+  use_symbolic_comparison = False
+  x: Any
+
+
+CLASSES = {1: A, 2: B, 3: C, 4: D}
+assert all(CLASSES[c].use_symbolic_comparison for c in (1, 2, 3))
 
 FALSE, TRUE, RAISED, NONBOOL = 0, 1, 2, 3
 
